@@ -188,7 +188,7 @@ def multiplicity(position, sgname=None, sgno=None, cell_choice='standard'):
     for i in range(1, mysg.nsymop):
         for j in range(multi):
             t = lp[i]-lpu[j]
-            if n.sum(n.mod(t, 1)) < 0.00001:
+            if n.sum(n.abs(t - n.round(t))) < 0.00001:
                 break
             else:
                 if j == multi-1:
